@@ -837,3 +837,80 @@ ab
 <A>a+
 <*>b
 ''')
+
+# --- 'rule cannot be matched' situations ------------------------------------------
+E('w_shadow', 'warn e1', r'''
+%%
+[a-z]+
+foo
+bar[0-9]
+[0-9]
+5
+.|\n
+''')
+
+E('w_sc', 'warn sc', r'''
+%x A
+%s B
+%%
+a
+<A>a
+<B>a
+<A>b
+<A>[a-b]
+<*>.|\n
+<A,B>\n
+''')
+
+E('w_bol', 'warn bol', r'''
+%%
+^ab
+ab
+^ab
+^c
+c
+^[a-c]x
+\n
+.
+''')
+
+E('w_trail', 'warn trail', r'''
+%%
+ab/c
+abc
+ab/cd
+a/bc
+[a-d]
+\n
+''')
+
+E('w_eq', 'warn', r'''
+%%
+a(b|c)
+ab
+ac
+ad
+a[b-d]
+a.
+''')
+
+E('w_none', 'warn', r'''
+%%
+ab
+a
+b
+''')
+
+E('w_nodefault_ok', 'warn nodefault', r'''
+%option nodefault
+%%
+a
+[^a]
+''')
+
+E('w_nodefault_hit', 'warn nodefault', r'''
+%option nodefault
+%%
+a+
+b
+''')
